@@ -266,6 +266,15 @@ def element_parsing(
             else:
                 if isinstance(element, spt.Measure):
                     current_tl_pos = measure_mapping[element.number]
+                elif isinstance(element, spt.Clef) and not any(
+                    c.staff == element.staff
+                    for c in part.iter_all(
+                        spt.Clef, current_tl_pos, current_tl_pos + 1
+                    )
+                ):
+                    # the clef of another staff of the same part (a repetition of a clef
+                    # that is already there, as in the sub-spines of a split spine, is skipped)
+                    part.add(element, start=current_tl_pos)
 
     return line2pos
 
